@@ -1,0 +1,31 @@
+//! Verification hooks (feature `verif-hooks`, off by default).
+//!
+//! A thread-local override for the ambient monotonic clock so an external
+//! harness can drive the shell functions (which read `now_ms()` internally)
+//! under a virtual clock. Nothing here is compiled without the feature.
+
+use std::cell::Cell;
+
+thread_local! {
+    static CLOCK: Cell<Option<u64>> = const { Cell::new(None) };
+    static CLOCK_FN: Cell<Option<fn() -> u64>> = const { Cell::new(None) };
+}
+
+/// Pin `now_ms()` on this thread to `t` (or release it with `None`).
+pub fn set_clock(t: Option<u64>) {
+    CLOCK.with(|c| c.set(t));
+}
+
+/// Route `now_ms()` on this thread through `f` (takes precedence over a
+/// pinned value); `None` removes it.
+pub fn set_clock_fn(f: Option<fn() -> u64>) {
+    CLOCK_FN.with(|c| c.set(f));
+}
+
+#[inline]
+pub(crate) fn clock_override() -> Option<u64> {
+    if let Some(f) = CLOCK_FN.with(|c| c.get()) {
+        return Some(f());
+    }
+    CLOCK.with(|c| c.get())
+}
